@@ -996,6 +996,34 @@ impl Stream for Aes {
             }
         }
 
+        // ---- the size FIELDS are attacker-writable and not covered by the authentication code: shrink the declared
+        // compressed size of a non-empty entry (to the bare overhead = "no ciphertext", and to a few bytes more) and
+        // leave everything else alone. Whatever is then delivered is not the content: it must be a read error.
+        for ver in [1u16, 2] {
+            for bits in [128usize, 192, 256] {
+                for (method, len) in [(0u16, 3000usize), (8, 3000), (0, 1), (12, 500), (93, 500)] {
+                    let mut r = next_rng();
+                    let pw = b"helloworld".to_vec();
+                    let plain = mk_plain(&mut r, len);
+                    let salt = r.bytes(bits / 16);
+                    let b = build_case(ver, bits, method, &pw, &plain, &salt, false, r.chance(1, 2));
+                    let overhead = (bits / 16 + 12) as u32;
+                    let full = b.f.csize;
+                    let mut sizes = vec![overhead, overhead + 1, overhead + 16, full - 1];
+                    sizes.sort();
+                    sizes.dedup();
+                    for cs in sizes {
+                        if cs >= full { continue; }
+                        let f2 = Fields { body: b.f.body.clone(), extra: b.f.extra.clone(), pre: b.f.pre.clone(), csize: cs, ..b.f };
+                        let info = format!("ae{ver}/{bits}/m{method}/len{len}/csize-field{cs}of{full}");
+                        let api = APIS[(cs as usize + bits / 64) % 5];
+                        g.push(&format!("read.size-field.{}", if cs == overhead { "overhead" } else { "shrunk" }),
+                            with_api(read_line("tamper", &info, &f2, bits, cs as u64, Some(&pw), &b.enc.inner, &plain, "4096"), api));
+                    }
+                }
+            }
+        }
+
         // ---- a wrong password whose 2-byte verifier collides (found once with `aes.findcoll`):
         // it passes `validate`; a non-empty entry then fails at the code check, an empty one is accepted
         for ver in [1u16, 2] {
@@ -1304,7 +1332,28 @@ impl Stream for Aes {
                     "plain" => if !resp.contains(&ok_plain) { fail("right password did not yield exactly the original bytes".into()); },
                     "pwreq" => if !resp.ends_with("file=err passwordrequired") { fail("no password did not yield the password-required error".into()); },
                     "wrongpw" => if is_ok { fail("a wrong password was accepted and data returned".into()); },
-                    "tamper" => if is_ok { fail("a modified non-empty entry was read to end-of-file without an error".into()); },
+                    "tamper" => if is_ok {
+                        // ONE way to get here is a known finding (K-I): the declared compressed size is the bare overhead, so
+                        // the reader takes the entry for empty and reports end-of-file at once - nothing decrypted, the code
+                        // never compared - although the entry (declared uncompressed size > 0) had content
+                        let extra = get_hex(&a, "extra").unwrap_or_default();
+                        let mut overhead = None;
+                        let mut o = 0usize;
+                        while o + 4 <= extra.len() {
+                            let l = u16::from_le_bytes([extra[o + 2], extra[o + 3]]) as usize;
+                            if extra[o] == 0x01 && extra[o + 1] == 0x99 && o + 11 <= extra.len() {
+                                overhead = match extra[o + 8] { 1 => Some(20u64), 2 => Some(24), 3 => Some(28), _ => None };
+                                break;
+                            }
+                            o += 4 + l;
+                        }
+                        let declared_empty = overhead.is_some() && get_u64(&a, "csize") == overhead;
+                        if declared_empty && resp.contains("read=ok len=0 ") && get_u64(&a, "usize").unwrap_or(0) > 0 {
+                            fail("K-I aes-declared-empty-unauthenticated: a non-empty entry whose declared compressed size was reduced to the bare overhead reads as a successful EMPTY entry; the authentication code is never compared (AesReaderValid::read returns Ok(0) at data_remaining == 0 before anything is verified), and under AE-2 there is no CRC behind it".into());
+                        } else {
+                            fail("a modified non-empty entry was read to end-of-file without an error".into());
+                        }
+                    },
                     "emptytamper" => if is_ok && !resp.contains("read=ok len=0 ") { fail("empty entry returned data".into()); },
                     "crcerr" => if !resp.contains("read=err io:other") { fail("AE-1 entry with a wrong CRC was not rejected with the checksum error".into()); },
                     "err" | "rejected" => if is_ok { fail("a malformed / truncated / refused entry was read successfully".into()); },
